@@ -21,6 +21,16 @@ import (
 // Root is the verification root.
 const Root = "/verif"
 
+// outDir returns the directory for evidence/replays: under /verif normally,
+// under $VERIF_OUT when a check is run against a scratch copy of the
+// repository (development only), so that such runs never overwrite evidence.
+func outDir(kind string) string {
+	if d := os.Getenv("VERIF_OUT"); d != "" {
+		return filepath.Join(d, kind)
+	}
+	return filepath.Join(Root, kind)
+}
+
 // Finding is one entry of known_findings.json.
 type Finding struct {
 	Property    string            `json:"property"`
@@ -250,7 +260,7 @@ func (r *Run) Violation(sig map[string]string, what string, witness any) bool {
 		return true
 	}
 	r.replayIdx++
-	dir := filepath.Join(Root, "replays", r.Prop)
+	dir := filepath.Join(outDir("replays"), r.Prop)
 	os.MkdirAll(dir, 0o755)
 	path := filepath.Join(dir, fmt.Sprintf("%s-seed%d-%03d.json", r.Tier, r.Seed, r.replayIdx))
 	doc := map[string]any{
@@ -335,8 +345,9 @@ func (r *Run) Finish(rule string, floor int) {
 		fmt.Printf("ERROR: evidence does not marshal: %v\n", err)
 		os.Exit(3)
 	}
-	os.MkdirAll(filepath.Join(Root, "evidence"), 0o755)
-	if err := os.WriteFile(filepath.Join(Root, "evidence", r.Prop+".json"), data, 0o644); err != nil {
+	evDir := outDir("evidence")
+	os.MkdirAll(evDir, 0o755)
+	if err := os.WriteFile(filepath.Join(evDir, r.Prop+".json"), data, 0o644); err != nil {
 		fmt.Printf("ERROR: cannot write evidence: %v\n", err)
 		os.Exit(3)
 	}
